@@ -32,7 +32,21 @@ impl Filter {
 pub fn id_list() -> BoxedStrategy<Option<Vec<String>>> {
     prop_oneof![
         2 => Just(None),
-        3 => vec(crate::gen::message::pool_id(), 0..4).prop_map(Some),
+        3 => vec(filter_id(), 0..4).prop_map(Some),
+    ]
+    .boxed()
+}
+/// an id as it may stand in a filter configuration: mostly the ids messages carry (small shared pool), sometimes a
+/// near miss of one of them (longer than the 4 bytes of the wire field, a proper prefix, another letter case, padded) —
+/// membership is by equality of the whole string, so a near miss must never admit the message
+pub fn filter_id() -> BoxedStrategy<String> {
+    let pool = crate::gen::message::pool_id;
+    prop_oneof![
+        12 => pool(),
+        2 => (pool(), prop::sample::select(vec!["0", "1", "X", " ", "\u{0}", "é", "10"])).prop_map(|(p, s)| format!("{}{}", p, s)),
+        1 => (pool(), 0usize..4).prop_map(|(p, k)| p.chars().take(k).collect::<String>()),
+        1 => pool().prop_map(|p| if p.chars().any(|c| c.is_ascii_uppercase()) { p.to_ascii_lowercase() } else { p.to_ascii_uppercase() }),
+        1 => pool().prop_map(|p| format!(" {}", p)),
     ]
     .boxed()
 }
